@@ -904,14 +904,16 @@ def run(tier: str, seed: int) -> int:
 
 
 PARTIAL = [
-    "read-only methods: names, num_seqs, len, to_dict, get_gapped_seq, positions, get_gap_array, count_gaps_per_pos, is_ragged, "
-    "degap are proved to be functions of the rows (readonly_refine_strings); the other read-only methods (to_fasta, "
-    "count_gaps_per_seq, counts_per_seq, iupac_consensus, variable_positions, get_lengths) are compared with a rebuilt object only",
+    "read-only methods: names, num_seqs, len, to_dict, get_gapped_seq, positions, get_gap_array, count_gaps_per_pos, "
+    "count_gaps_per_seq, variable_positions, get_lengths, is_ragged, degap are proved to be functions of the named rows; "
+    "get_seq(name) is proved for rows whose sequence holds no gap character (what the constructor builds), its preservation "
+    "by every operation is compared only; to_fasta, counts_per_seq, iupac_consensus are compared with a rebuilt object only",
     "the new-style SequenceCollection has no model: compared with the oracle directly; ArrayAlignment.get_sub_alignment likewise",
     "slice bounds below -len, strides and out-of-range integer indices on the annotatable class are rejected or answered "
     "outside the property (oracle-silent; model-vs-implementation only)",
     "to_rna / to_dna of a protein or text alignment is outside the property (the code coerces when the letters happen to be "
     "nucleotide codes): not generated, no theorem",
+    "rename_seqs with a renamer that maps two present names to one name (rows collapse in the dict) is outside the guard: not generated",
 ]
 
 
